@@ -45,3 +45,85 @@ package kvstore
 //@                len(k.tables) == old(len(k.tables)) && (forall j int {k.tables[j]} :: 0 <= j && j < len(k.tables) ==> k.tables[j] == old(k.tables[j])) &&
 //@                (forall j int, h uint64 {k.tables[j].has(h)} :: 0 <= j && j < len(k.tables) ==> k.tables[j].has(h) == old(k.tables[j].has(h)))
 //@   loop 0 decreases i + 1
+
+//@ func (k *KVStore) GetTTL(hkey uint64) (int64, error)
+//@   props C11 C09
+//@   flag termination
+//@   requires #inv_in: k.inv()
+//@   ensures  #found [C11]: result.1 == nil ==> k.has(hkey)
+//@   ensures  #not_found [C11]: result.1 != nil ==> !k.has(hkey)
+//@   ensures  #err_kind: result.1 == nil || result.1 == storage.ErrKeyNotFound
+//@   ensures  #ttl [C09 C11]: result.1 == nil ==> forall i int {k.tables[i]} :: k.at(hkey, i) ==> result.0 == k.tables[i].ttlOf(hkey)
+//@   loop 0 invariant #scanned: -1 <= i && i < len(k.tables) && forall j int {k.tables[j]} :: i < j && j < len(k.tables) ==> !k.tables[j].has(hkey)
+//@   loop 0 decreases i + 1
+//@   modifies nothing
+
+//@ func (k *KVStore) GetLastAccess(hkey uint64) (int64, error)
+//@   props C11 C10
+//@   flag termination
+//@   requires #inv_in: k.inv()
+//@   ensures  #found [C11]: result.1 == nil ==> k.has(hkey)
+//@   ensures  #not_found [C11]: result.1 != nil ==> !k.has(hkey)
+//@   ensures  #err_kind: result.1 == nil || result.1 == storage.ErrKeyNotFound
+//@   ensures  #la [C10 C11]: result.1 == nil ==> forall i int {k.tables[i]} :: k.at(hkey, i) ==> result.0 == k.tables[i].laOf(hkey)
+//@   loop 0 invariant #scanned: -1 <= i && i < len(k.tables) && forall j int {k.tables[j]} :: i < j && j < len(k.tables) ==> !k.tables[j].has(hkey)
+//@   loop 0 decreases i + 1
+//@   modifies nothing
+
+//@ func (k *KVStore) GetKey(hkey uint64) (string, error)
+//@   props C11 C17
+//@   flag termination
+//@   requires #inv_in: k.inv()
+//@   ensures  #found [C11]: result.1 == nil ==> k.has(hkey)
+//@   ensures  #not_found [C11]: result.1 != nil ==> !k.has(hkey)
+//@   ensures  #err_kind: result.1 == nil || result.1 == storage.ErrKeyNotFound
+//@   ensures  #key [C17 C11]: result.1 == nil ==> forall i int {k.tables[i]} :: k.at(hkey, i) ==> result.0 == k.tables[i].keyOf(hkey)
+//@   loop 0 invariant #scanned: -1 <= i && i < len(k.tables) && forall j int {k.tables[j]} :: i < j && j < len(k.tables) ==> !k.tables[j].has(hkey)
+//@   loop 0 decreases i + 1
+//@   modifies nothing
+
+//@ func (k *KVStore) GetRaw(hkey uint64) ([]byte, error)
+//@   props C11 C18 C04
+//@   flag termination
+//@   requires #inv_in: k.inv()
+//@   ensures  #found [C11]: result.1 == nil ==> k.has(hkey)
+//@   ensures  #not_found [C11]: result.1 != nil ==> !k.has(hkey)
+//@   ensures  #err_kind: result.1 == nil || result.1 == storage.ErrKeyNotFound
+//@   ensures  #fresh [C18]: result.1 == nil ==> fresh(result.0)
+//@   ensures  #wf [C16]: result.1 == nil ==> entry.wfAt(elems(result.0), off(result.0), len(result.0))
+//@   loop 0 invariant #scanned: -1 <= i && i < len(k.tables) && forall j int {k.tables[j]} :: i < j && j < len(k.tables) ==> !k.tables[j].has(hkey)
+//@   loop 0 decreases i + 1
+//@   modifies nothing
+
+// Delete removes the key from the (unique) table holding it; everything else is untouched.
+//@ func (k *KVStore) Delete(hkey uint64) error
+//@   props C11 C20
+//@   flag termination
+//@   requires #inv_in: k.inv()
+//@   ensures  #ok: result == nil
+//@   ensures  #gone [C11]: !k.has(hkey)
+//@   ensures  #others [C11]: forall h uint64, i int {k.tables[i].has(h)} :: h != hkey && 0 <= i && i < len(k.tables) ==>
+//@                k.tables[i].has(h) == old(k.tables[i].has(h)) && (k.tables[i].has(h) ==> k.tables[i].off(h) == old(k.tables[i].off(h)))
+//@   ensures  #same_tables: len(k.tables) == old(len(k.tables)) && forall j int {k.tables[j]} :: 0 <= j && j < len(k.tables) ==> k.tables[j] == old(k.tables[j])
+//@   ensures  #inv_out: k.inv()
+//@   loop 0 invariant #scanned: -1 <= i && i < len(k.tables) && k.inv() && (forall j int {k.tables[j]} :: i < j && j < len(k.tables) ==> !k.tables[j].has(hkey)) &&
+//@                len(k.tables) == old(len(k.tables)) && (forall j int {k.tables[j]} :: 0 <= j && j < len(k.tables) ==> k.tables[j] == old(k.tables[j])) &&
+//@                (forall j int, h uint64 {k.tables[j].has(h)} :: 0 <= j && j < len(k.tables) ==> k.tables[j].has(h) == old(k.tables[j].has(h)) && (k.tables[j].has(h) ==> k.tables[j].off(h) == old(k.tables[j].off(h))))
+//@   loop 0 decreases i + 1
+
+//@ func (k *KVStore) UpdateTTL(hkey uint64, data storage.Entry) error
+//@   props C11 C09
+//@   flag termination
+//@   requires #inv_in: k.inv()
+//@   requires #entry: data != nil
+//@   ensures  #found [C11]: result == nil ==> k.has(hkey)
+//@   ensures  #not_found [C11]: result != nil ==> !k.has(hkey)
+//@   ensures  #err_kind: result == nil || result == storage.ErrKeyNotFound
+//@   ensures  #ttl [C09]: result == nil ==> forall i int {k.tables[i]} :: k.at(hkey, i) ==> k.tables[i].ttlOf(hkey) == data.ttl && k.tables[i].tsOf(hkey) == data.timestamp
+//@   ensures  #same_keys [C11]: forall h uint64, i int {k.tables[i].has(h)} :: 0 <= i && i < len(k.tables) ==> k.tables[i].has(h) == old(k.tables[i].has(h)) && (k.tables[i].has(h) ==> k.tables[i].off(h) == old(k.tables[i].off(h)))
+//@   ensures  #same_tables: len(k.tables) == old(len(k.tables)) && forall j int {k.tables[j]} :: 0 <= j && j < len(k.tables) ==> k.tables[j] == old(k.tables[j])
+//@   ensures  #inv_out: k.inv()
+//@   loop 0 invariant #scanned: -1 <= i && i < len(k.tables) && k.inv() && (forall j int {k.tables[j]} :: i < j && j < len(k.tables) ==> !k.tables[j].has(hkey)) &&
+//@                len(k.tables) == old(len(k.tables)) && (forall j int {k.tables[j]} :: 0 <= j && j < len(k.tables) ==> k.tables[j] == old(k.tables[j])) &&
+//@                (forall j int, h uint64 {k.tables[j].has(h)} :: 0 <= j && j < len(k.tables) ==> k.tables[j].has(h) == old(k.tables[j].has(h)) && (k.tables[j].has(h) ==> k.tables[j].off(h) == old(k.tables[j].off(h))))
+//@   loop 0 decreases i + 1
